@@ -1,4 +1,5 @@
 #include <occa/internal/lang/expr/charNode.hpp>
+#include <occa/internal/lang/token/charToken.hpp>
 
 namespace occa {
   namespace lang {
@@ -22,6 +23,14 @@ namespace occa {
     }
 
     void charNode::print(printer &pout) const {
+      // The token knows the encoding prefix and the suffix
+      if (token && (token->type() & tokenType::char_)) {
+        const charToken &chToken = token->to<charToken>();
+        if (chToken.value == value) {
+          pout << chToken.str();
+          return;
+        }
+      }
       pout << '\'' << escape(value, '\'') << '\'';
     }
 
